@@ -59,7 +59,11 @@ inductive CState where
 structure Cfg (Msg : Type) where
   /-- `zlib.compress(pickle.dumps(m), 3)` -/
   enc : Msg → Bytes
-  /-- `pickle.loads(zlib.decompress(p))`, `none` = any exception -/
+  /-- decoding of the `l` bytes named by the length field, `none` = any exception.  With the repair D83 the
+  bytes must be consumed exactly: `zlib.decompressobj()` must reach `eof` with no `unused_data`, and
+  `pickle.load` must exhaust the decompressed stream (the unrepaired `pickle.loads(zlib.decompress(p))` ignored
+  trailing bytes).  Still a parameter: in the driver a table computed with the real zlib/pickle in that strict
+  way; in the theorems `StrictDec` where exactness matters. -/
   dec : Bytes → Option Msg
   /-- `onMessageReceived(m)` calls `conn.disconnect()` -/
   cbDisc : Msg → Bool
